@@ -162,6 +162,15 @@ def intoInstructions (p : Program) : List Instr :=
   let out := out ++ p.circuits
   out ++ p.body
 
+/-- `Program::len` (1011-1019): memory regions + frames + waveforms + gate definitions + circuits +
+body + extern pragmas — the CALIBRATIONS ARE NOT COUNTED (mirrored as it is). -/
+def Program.len (p : Program) : Nat :=
+  p.decls.length + p.frames.length + p.waveforms.length + p.gateDefs.length + p.circuits.length +
+    p.body.length + p.externs.length
+
+/-- `Program::is_empty` (1007-1009) = `len() == 0`: true of a program holding only calibrations -/
+def Program.isEmpty (p : Program) : Bool := p.len == 0
+
 /-- `Program::rebuild_used_qubits` (824-830) -/
 def rebuildUsed (p : Program) : Program := { p with used := qubitsOf (toInstructions p) }
 
